@@ -134,6 +134,8 @@ theorem lexStep_excess {α} (I : Interp α) (t : Table) (lm : Str → Option Nat
       · split at h
         · split at h
           · cases h
+          split at h
+          · cases h
           · rename_i i hi
             split at h
             · cases h
